@@ -425,5 +425,155 @@ Section Proofs.
       - intros y w E. unfold upd. destruct (N.eqb_spec (rn y) x) as [Ey|_]; [exfalso; apply (rn_fresh y); [eapply Dg; eauto|rewrite Ey; exact Ix]|]. apply R1. exact E.
       - apply ext_upd. exact R2.
     Qed.
+
+    (* ---------- facts about callee instructions (reflection of the checker's conditions) ---------- *)
+    Lemma blockG_lt : forall j pc i, nth_error (nth_block G j) pc = Some i -> j < nG.
+    Proof.
+      intros j pc i E. destruct (Nat.lt_ge_cases j nG) as [|Ge]; [auto|]. unfold nth_block in E. rewrite nth_overflow in E by exact Ge.
+      destruct pc; discriminate.
+    Qed.
+    Lemma in_insts : forall (H : func) j pc i, nth_error (nth_block H j) pc = Some i -> j < List.length H -> In i (func_insts H).
+    Proof.
+      intros H j pc i E L. unfold func_insts. apply in_concat. exists (nth_block H j). split; [apply nth_In; exact L|eapply nth_error_In; eauto].
+    Qed.
+    Lemma in_vars : forall (H : func) j pc i x, nth_error (nth_block H j) pc = Some i -> j < List.length H -> In x (inst_vars i) -> In x (func_vars H).
+    Proof.
+      intros H j pc i x E L I. unfold func_vars. apply in_flat_map. exists (nth_block H j). split; [apply nth_In; exact L|].
+      apply in_flat_map. exists i. split; [eapply nth_error_In; eauto|exact I].
+    Qed.
+    Lemma out_in_vars : forall i x, In x (i_outs i) -> In x (inst_vars i).
+    Proof. intros. unfold inst_vars. apply in_or_app. right. auto. Qed.
+    Lemma arg_in_vars : forall i x, In (OVar x) (i_args i) -> In x (inst_vars i).
+    Proof. intros. unfold inst_vars. apply in_or_app. left. apply in_flat_map. exists (OVar x). split; [auto|left; reflexivity]. Qed.
+
+    Lemma block_ok_G : forall j, j < nG -> block_ok nGN (nth_block G j) = true.
+    Proof.
+      intros j Hj. unfold func_ok in HokG. apply andb_prop in HokG. destruct HokG as [A _]. rewrite forallb_forall in A.
+      apply A. unfold nth_block. apply nth_In. exact Hj.
+    Qed.
+    Lemma ctl_last_gen : forall m (blk : block) pc i, block_ok m blk = true -> nth_error blk pc = Some i -> is_ctl i = true -> S pc = List.length blk.
+    Proof.
+      intros m blk pc i K E C. pose proof (nth_error_lt _ _ _ _ E) as L. destruct (Nat.eq_dec (S pc) (List.length blk)); [auto|].
+      exfalso. unfold block_ok in K.
+      apply andb_prop in K. destruct K as [K _]. apply andb_prop in K. destruct K as [_ K]. rewrite forallb_forall in K.
+      specialize (K i (in_removelast _ _ _ E ltac:(lia))). rewrite C in K. discriminate.
+    Qed.
+
+    (* the conjuncts of callee_ok *)
+    Lemma calleeG : exists b0 rest, G = b0 :: rest /\
+      forallb (fun b => forallb (fun i => negb (is_param i)) b) rest = true /\
+      forallb (fun i => if is_param i then match i_outs i with [_] => match i_args i with [] => true | _ => false end | _ => false end else true) b0 = true /\
+      forallb (fun i => negb (is_op "djmp" i)) (func_insts G) = true /\
+      lead_phis b0 = [] /\
+      forallb (fun i => if is_op "jmp" i || is_op "jnz" i || is_phi i
+                        then forallb (fun o => match o with OLab l => negb (N.eqb l 0) | _ => true end) (i_args i) else true) (func_insts G) = true /\
+      forallb (fun i => if is_op "ret" i
+                        then Nat.eqb (List.length (removelast (i_args i))) (List.length outs) &&
+                             forallb (fun o => match o with OLab _ => false | _ => true end) (removelast (i_args i)) &&
+                             negb (match i_args i with [] => true | _ => false end) &&
+                             match i_outs i with [] => true | _ => false end
+                        else true) (func_insts G) = true.
+    Proof.
+      unfold callee_ok in HcalleeG. destruct G as [|b0 rest]; [discriminate|]. exists b0, rest. split; [reflexivity|].
+      repeat (apply andb_prop in HcalleeG; destruct HcalleeG as [HcalleeG ?]).
+      repeat split; auto. destruct (lead_phis b0); [reflexivity|discriminate].
+    Qed.
+
+    Lemma G_param : forall j pc i, nth_error (nth_block G j) pc = Some i -> is_param i = true -> j = 0 /\ exists o, i_outs i = [o] /\ i_args i = [].
+    Proof.
+      intros j pc i E Pm. destruct calleeG as [b0 [rest [EG [A [Bq _]]]]]. destruct j as [|j].
+      - split; [reflexivity|]. rewrite EG in E. cbn in E. rewrite forallb_forall in Bq. specialize (Bq i (nth_error_In _ _ E)). rewrite Pm in Bq.
+        destruct (i_outs i) as [|o [|]]; try discriminate. destruct (i_args i); try discriminate. eauto.
+      - exfalso. pose proof (blockG_lt _ _ _ E) as Lt. rewrite EG in E, Lt. unfold nG in Lt. cbn in E, Lt.
+        rewrite forallb_forall in A. assert (I : In (nth j rest []) rest) by (apply nth_In; unfold nG in Lt; cbn in Lt; lia).
+        specialize (A _ I). rewrite forallb_forall in A. specialize (A i (nth_error_In _ _ E)). rewrite Pm in A. discriminate.
+    Qed.
+    Lemma G_nodjmp : forall j pc i, nth_error (nth_block G j) pc = Some i -> is_op "djmp" i = false.
+    Proof.
+      intros j pc i E. destruct calleeG as [b0 [rest [EG [_ [_ [A _]]]]]]. rewrite forallb_forall in A.
+      specialize (A i (in_insts G _ _ _ E (blockG_lt _ _ _ E))). apply negb_true_iff in A. exact A.
+    Qed.
+    Lemma G_nozero : forall j pc i l, nth_error (nth_block G j) pc = Some i -> is_op "jmp" i || is_op "jnz" i || is_phi i = true ->
+      In (OLab l) (i_args i) -> l <> 0%N.
+    Proof.
+      intros j pc i l E Op I. destruct calleeG as [b0 [rest [EG [_ [_ [_ [_ [A _]]]]]]]]. rewrite forallb_forall in A.
+      specialize (A i (in_insts G _ _ _ E (blockG_lt _ _ _ E))). rewrite Op in A. rewrite forallb_forall in A. specialize (A _ I).
+      apply negb_true_iff in A. apply N.eqb_neq in A. exact A.
+    Qed.
+    Lemma G_ret : forall j pc i, nth_error (nth_block G j) pc = Some i -> is_op "ret" i = true ->
+      List.length (removelast (i_args i)) = List.length outs /\ Forall (fun o => match o with OLab _ => False | _ => True end) (removelast (i_args i)) /\
+      i_args i <> [] /\ i_outs i = [].
+    Proof.
+      intros j pc i E Op. destruct calleeG as [b0 [rest [EG [_ [_ [_ [_ [_ A]]]]]]]]. rewrite forallb_forall in A.
+      specialize (A i (in_insts G _ _ _ E (blockG_lt _ _ _ E))). rewrite Op in A.
+      apply andb_prop in A. destruct A as [A A4]. apply andb_prop in A. destruct A as [A A3]. apply andb_prop in A. destruct A as [A1 A2].
+      split; [apply Nat.eqb_eq; exact A1|]. split.
+      - apply Forall_forall. intros o Io. rewrite forallb_forall in A2. specialize (A2 o Io). destruct o; auto; discriminate.
+      - split; [destruct (i_args i); [discriminate|congruence]|destruct (i_outs i); [reflexivity|discriminate]].
+    Qed.
+    Lemma G_nolab : forall j pc i, nth_error (nth_block G j) pc = Some i -> is_phi i || is_op "jmp" i || is_op "jnz" i = false ->
+      Forall olab_ok (i_args i).
+    Proof.
+      intros j pc i E Op. unfold no_block_label_values in HnolabG. rewrite forallb_forall in HnolabG.
+      specialize (HnolabG i (in_insts G _ _ _ E (blockG_lt _ _ _ E))). rewrite Op in HnolabG. apply Forall_forall. intros o Io.
+      rewrite forallb_forall in HnolabG. specialize (HnolabG o Io). destruct o; cbn; auto. apply N.leb_le. exact HnolabG.
+    Qed.
+    Lemma G_ctl_last : forall j pc i, nth_error (nth_block G j) pc = Some i -> is_ctl i = true -> S pc = List.length (nth_block G j).
+    Proof. intros j pc i E C. eapply ctl_last_gen; eauto. apply block_ok_G. eapply blockG_lt; eauto. Qed.
+    Lemma G_outs : forall j pc i x, nth_error (nth_block G j) pc = Some i -> In x (i_outs i) -> In x VG.
+    Proof. intros. eapply in_vars; eauto. eapply blockG_lt; eauto. apply out_in_vars. auto. Qed.
+
+    (* ---------- structure of a cloned block ---------- *)
+    Notation CL := (clone_insts r base nGN bind outs nN).
+    Definition pcount (l : list inst) : nat := List.length (filter is_param l).
+    Definition noret (l : list inst) : Prop := forall i, In i l -> is_op "ret" i = false.
+
+    Lemma clone_app : forall l1 l2 k, CL k (l1 ++ l2) = CL k l1 ++ CL (k + pcount l1) l2.
+    Proof.
+      induction l1 as [|a l1 IH]; intros l2 k; cbn [app clone_insts]; [unfold pcount; cbn; rewrite Nat.add_0_r; reflexivity|].
+      unfold pcount. cbn [filter]. unfold is_param at 1. destruct (is_param_op (i_op a)) eqn:Pm.
+      - cbn [List.length]. rewrite IH. unfold pcount. rewrite Nat.add_succ_r. reflexivity.
+      - destruct (String.eqb (i_op a) "ret"); rewrite IH; unfold pcount; [rewrite <- !app_assoc|]; reflexivity.
+    Qed.
+    Lemma clone_len_noret : forall l k, noret l -> List.length (CL k l) = List.length l.
+    Proof.
+      induction l as [|a l IH]; intros k NR; cbn [clone_insts List.length]; [reflexivity|].
+      assert (Ra : String.eqb (i_op a) "ret" = false) by (apply (NR a); left; reflexivity).
+      assert (NR' : noret l) by (intros i I; apply NR; right; exact I).
+      destruct (is_param_op (i_op a)); [|rewrite Ra]; cbn [List.length]; rewrite IH; auto.
+    Qed.
+    Lemma firstn_noret : forall j pc i, nth_error (nth_block G j) pc = Some i -> noret (firstn pc (nth_block G j)).
+    Proof.
+      intros j pc i E a Ia. destruct (is_op "ret" a) eqn:Ra; [|reflexivity]. exfalso.
+      apply In_nth_error in Ia. destruct Ia as [q Eq].
+      assert (Lq : q < pc). { pose proof (nth_error_lt _ _ _ _ Eq) as L. rewrite firstn_length in L. lia. }
+      rewrite nth_error_firstn' in Eq by exact Lq.
+      assert (C : is_ctl a = true) by (unfold is_ctl; rewrite Ra; repeat rewrite orb_true_r; reflexivity).
+      pose proof (G_ctl_last _ _ _ Eq C). pose proof (nth_error_lt _ _ _ _ E). lia.
+    Qed.
+    Lemma split_at : forall (A : Type) (l : list A) k x, nth_error l k = Some x -> l = firstn k l ++ x :: skipn (S k) l.
+    Proof.
+      induction l as [|a l IH]; intros k x E; destruct k; cbn in E; try discriminate.
+      - inversion E; subst. reflexivity.
+      - cbn [firstn skipn app]. f_equal. apply IH. exact E.
+    Qed.
+    (* instruction q of the clone of (i :: rest) is found at position pc + q of the cloned block *)
+    Lemma clone_at : forall j pc i q, nth_error (nth_block G j) pc = Some i -> j < nG ->
+      nth_error (nth_block F' (n + 1 + j)) (pc + q) =
+      nth_error (CL (pcount (firstn pc (nth_block G j))) (i :: skipn (S pc) (nth_block G j))) q.
+    Proof.
+      intros j pc i q E Lj. rewrite F'_clone by exact Lj. unfold cloneb. fold nGN.
+      rewrite (split_at _ _ _ _ E) at 1. rewrite clone_app. cbn [Nat.add].
+      pose proof (clone_len_noret _ 0 (firstn_noret _ _ _ E)) as Ln. rewrite firstn_length in Ln.
+      pose proof (nth_error_lt _ _ _ _ E) as Lt. rewrite Nat.min_l in Ln by lia.
+      rewrite nth_error_app2 by lia. rewrite Ln. replace (pc + q - pc) with q by lia. reflexivity.
+    Qed.
+    Lemma pcount_S : forall (blk : block) pc i, nth_error blk pc = Some i ->
+      pcount (firstn (S pc) blk) = pcount (firstn pc blk) + (if is_param i then 1 else 0).
+    Proof.
+      induction blk as [|a blk IH]; intros pc i E; destruct pc; cbn in E; try discriminate.
+      - inversion E; subst. unfold pcount. cbn. destruct (is_param i); reflexivity.
+      - specialize (IH pc i E). unfold pcount in *. cbn [firstn filter] in *. destruct (is_param a); cbn [List.length]; rewrite IH; lia.
+    Qed.
   End Inline.
 End Proofs.
